@@ -137,8 +137,8 @@ class CFG:
         if isinstance(st, ast.If):
             n = self._new("test", st, "if")
             self._exc_edges(n.id, st.test, ctx)
-            self._edge(n.id, self._seq(st.body, nxt, ctx), "n")
-            self._edge(n.id, self._seq(st.orelse, nxt, ctx), "n")
+            self._edge(n.id, self._seq(st.body, nxt, ctx), "t")  # test true
+            self._edge(n.id, self._seq(st.orelse, nxt, ctx), "f")  # test false
             return n.id
         if isinstance(st, (ast.For, ast.AsyncFor)):
             n = self._new("for", st, "for")
@@ -153,10 +153,10 @@ class CFG:
             n = self._new("test", st, "while")
             self._exc_edges(n.id, st.test, ctx)
             lctx = Ctx(ctx.exc, ctx.ret, nxt, lambda: n.id)
-            self._edge(n.id, self._seq(st.body, lambda: n.id, lctx), "n")
+            self._edge(n.id, self._seq(st.body, lambda: n.id, lctx), "t")
             is_true = isinstance(st.test, ast.Constant) and bool(st.test.value)
             if not is_true:
-                self._edge(n.id, self._seq(st.orelse, nxt, ctx), "n")
+                self._edge(n.id, self._seq(st.orelse, nxt, ctx), "f")
             return n.id
         if isinstance(st, (ast.With, ast.AsyncWith)):
             return self._with(st, nxt, ctx)
@@ -321,6 +321,6 @@ def witness_path(cfg, wit, nid, state, limit=60):
         seen.add(cur)
         p, s, k = wit[cur]
         n = cfg.nodes[p]
-        path.append("%s%s@L%s" % (n.label, "" if k == "n" else "[" + k + "]", n.lineno))
+        path.append("%s%s@L%s" % (n.label, "" if k in ("n", "t", "f") else "[" + k + "]", n.lineno))
         cur = (p, s)
     return list(reversed(path))
